@@ -259,7 +259,15 @@ class ReducedDensityMatrixPropagator(MatrixData, Saveable):
         """
         
         if Nref > 1:
+            # refinement requested through the argument holds for this call
+            # only; the refinement set by setDtRefinement() is restored 
+            # so that later calls do not depend on this one
+            Nref_kept = self.Nref
             self.setDtRefinement(Nref)
+            try:
+                return self.propagate(rhoi, method=method, mdata=mdata)
+            finally:
+                self.setDtRefinement(Nref_kept)
         
         #
         # Testing if the object submitted is density matrix
